@@ -117,8 +117,11 @@ CListedAbsent(r) == \A b \in Buckets : ~r.st[b].ex => (~r.st[b].lst.ex /\ \A k \
 \* the model's invariants and action properties, evaluated on the implementation's step
 CInv(r) == IdsUnique(Obs(r)) /\ FrameRel(bk, Obs(r)) /\ CreatedEmptyRel(bk, Obs(r)) /\ CreatedStableRel(bk, Obs(r))
 
+\* "other": a call outside the properties' quantifiers (recorded from the repository's own tests: duplicate creation,
+\* single insert of an id-carrying event, calls that are expected to raise): not judged, the judge follows the observation
 FailClause(r) ==
-  IF r.op = "batch" THEN (IF BatchClause(r) # "none" THEN BatchClause(r)
+  IF r.op = "other" THEN "none"
+  ELSE IF r.op = "batch" THEN (IF BatchClause(r) # "none" THEN BatchClause(r)
                           ELSE IF ~CReads(r) THEN "reads-disagree" ELSE IF ~CListing(r) THEN "listing-disagrees"
                           ELSE IF ~CListedAbsent(r) THEN "absent-bucket-listed" ELSE IF ~IdsUnique(Obs(r)) THEN "model-invariant" ELSE "none")
   ELSE IF ~CFrame(r) THEN "other-bucket-changed"
@@ -139,7 +142,7 @@ TInit == tid \in 1..Len(Traces) /\ l = 1 /\ bk = [b \in Buckets |-> None]
 \* A non-conforming record is reported (REJECT) and the judge resynchronises on the observed state, so
 \* that the rest of the trace is still checked.
 TNext == /\ l <= Len(T)
-         /\ IF StepOK(R) /\ R.op # "batch" THEN Step(ToOp(R)) /\ bk' = Obs(R)
+         /\ IF StepOK(R) /\ R.op \notin {"batch", "other"} THEN Step(ToOp(R)) /\ bk' = Obs(R)
                                              ELSE bk' = Obs(R)
          /\ l' = l + 1 /\ UNCHANGED tid
 TSpec == TInit /\ [][TNext]_tvars
